@@ -34,10 +34,10 @@ REGISTRY = {
         "assumptions": _AS_COMMON,
     },
     "C13": {
-        "modules": ["contracts.cas_kernel", "contracts.cas_trees"],
+        "modules": ["contracts.cas_kernel", "contracts.cas_trees", "contracts.values"],
         "category": "other",
         "technique": "contract-based deductive verification of the real code: frame clause (every operand keeps width and denotation) of every kernel/tree contract, discharged on symbolic inputs (z3)",
-        "level_text": "Frame clauses of the C01 contracts: every expression the API handed out while building (every operand) keeps its width and, for ALL valuations, its denotation (independent walker) after the parent was built, simplified (with/without bitslice/widening) or evaluated in a map. Kernel operands: (size, v) unchanged. Bounded by tree depth 3. Pickle round trip: not covered by this check yet.",
+        "level_text": "Frame clauses of the C01 contracts: every expression the API handed out while building (every operand) keeps its width and, for ALL valuations, its denotation (independent walker) after the parent was built, simplified (with/without bitslice/widening) or evaluated in a map. Kernel operands: (size, v) unchanged. Bounded by tree depth 3. Map histories (bounded symbolic): every value read from a map through overlapping sub-registers keeps its width and denotation after <= 4 later writes/reads (all values symbolic). Pickle round trip of expressions, mappers and memory maps: run-time contract on generated objects (concrete, not counted as proved).",
         "level_note": "as C01. The sign flag of a constant is not part of its value; re-flagging of shared registers is covered by C10.",
         "design_ref": "DESIGN.md section 4 (C12/C13)",
         "explanation": "frame clauses (operands unchanged: width and denotation for all valuations) of the C01 contracts; bounded symbolic verification",
@@ -204,6 +204,42 @@ REGISTRY["C15"] = {
     "explanation": "proof of the ELF loadsegment page arithmetic and zero fill",
     "trusted_base": _TB + ["ghost file object (contracts/formats.py: StubFile/GhostBytes)"],
     "assumptions": _AS_COMMON + ["only Elf.loadsegment is under contract; loaders are not"],
+}
+
+REGISTRY["C02"] = {
+    "modules": ["contracts.blockstep"],
+    "category": "other",
+    "technique": "contract-based deductive verification of the real code: for decoded instruction sequences the block map (S >> mapper(seq)) and the step-by-step route (each instruction applied to a copy of S) are both executed by amoco on a state whose registers are SYMBOLIC constants; postcondition 'equal whenever both are constants' discharged by z3 on every path",
+    "level_text": "Bounded symbolic verification: for 12 ISA modules with semantics (RISC-V 32/64, x86, x64, MIPS, ARMv7 both modes, SPARC, MSP430, Z80, SH2, V850, 65C02), seeded sequences of 1..3 (thorough: 1..4) spec-driven concrete encodings whose semantics run, memory tracing / aliasing settings enumerated: for ALL register states the two routes agree on every register and on every memory location written at a constant address whenever both produce constants. No reference semantics is involved (both routes are amoco's), so a semantics bug common to both routes is invisible here (that is C06's subject).",
+    "level_note": "trusted: z3, symx engine/shims. Bounded by the enumerated sequences; memory is initially unknown, so loads from unwritten memory stay symbolic on both routes and are not compared; registers wider than 64 bits are left unbound. Every obligation is seeded (optional): an obligation the solvers cannot decide is reported as not decided, not as a failure.",
+    "design_ref": "DESIGN.md section 4 (C02)",
+    "explanation": "bounded symbolic verification of block-map versus step-by-step execution on symbolic register states",
+    "trusted_base": _TB,
+    "assumptions": _AS_COMMON + ["instructions whose semantics raise on an empty map are excluded by the generator (C17's subject)"],
+}
+
+REGISTRY["C19"] = {
+    "modules": ["contracts.merge"],
+    "category": "other",
+    "technique": "contract-based deductive verification of the real code: merge(m1, m2) executed on enumerated map pairs; postcondition 'the value of each location in each map denotes, for every valuation satisfying that map's conditions, what one of the merged alternatives denotes' discharged by z3 with the independent walker",
+    "level_text": "Bounded symbolic verification: seeded map pairs over three registers (one written by both maps, one by the first only, one by neither), expressions of depth <= 2 from the tree recipes, with/without complementary path conditions, widening on/off, thresholds {0,4,16}; for ALL register valuations the membership clause holds, unknown (top / widened) results are accepted as the statement says, untouched locations stay untouched, widths are preserved. Memory locations are not covered.",
+    "level_note": "trusted: z3, symx engine/shims, specs/den.py and the recipe reference semantics. Every obligation is seeded (optional).",
+    "design_ref": "DESIGN.md section 4 (C19)",
+    "explanation": "bounded symbolic verification of merge on enumerated register map pairs, all valuations",
+    "trusted_base": _TB + ["specs/den.py", "specs/refsem.py"],
+    "assumptions": _AS_COMMON + ["memory locations and flag registers are not exercised"],
+}
+
+REGISTRY["C18"] = {
+    "modules": ["contracts.cfg"],
+    "category": "other",
+    "technique": "contract-based deductive verification of code.block (length/support/slicing/cutting) on stub instructions of symbolic length and address (z3); run-time small-scope exhaustive contract on cfg.graph.add_vertex over every insertion order",
+    "level_text": "Bounded symbolic: block.length/support/__getitem__/cut for blocks of <= 4 instructions with ALL lengths (1..15) and start addresses. Run-time contract (concrete, small-scope exhaustive, never counted as proved): three streams of 6 instructions (thorough: nine), every subset of <= 3 (thorough 4) block starts inserted in every order; after every insertion graph.support holds pairwise-disjoint blocks containing every inserted instruction exactly once, with a fall-through edge at every split. Linear sweep over real code (lsweep) is not covered.",
+    "level_note": "trusted: z3, symx engine/shims; the stub instruction exposes address/length/bytes only. lsweep.sequence/iterblocks and delay-slot handling are not under contract.",
+    "design_ref": "DESIGN.md section 4 (C18)",
+    "explanation": "bounded symbolic verification of block operations + small-scope exhaustive run-time contract on CFG insertion orders",
+    "trusted_base": _TB + ["stub instruction objects (contracts/cfg.py)"],
+    "assumptions": _AS_COMMON + ["blocks cut from one stream end at the stream's fixed block ends (as basic blocks do)"],
 }
 
 NOT_APPLICABLE = {
